@@ -23,7 +23,7 @@ EXPLANATION = (
     "tables; R11d every consumer of the sign-encoded pragma_lines keys decodes the sign before using a key as a "
     "line number; R11e the tables are emptied when a new file starts; R11f the recogniser runs only under the "
     "pragma extension's flag; R11g every path through the compiler of one pragma either records a suppression or "
-    "reports the malformed pragma; R11i the suppression tables are written only by the per-file reset and the pragma compiler (never while reporting). Not decided: the character-level parsing of the pragma text, alias resolution "
+    "reports the malformed pragma; R11i the suppression tables are written only by the per-file reset and the pragma compiler (never while reporting). R11a also: a loop that looks for a suppressing entry looks at every entry; R11d also: every ordering of the keys decodes the sign and no arithmetic on a raw key is blind to its sign; R11j recogniser and compiler read a pragma line the same way (trailing whitespace stripped before the closing sequence is cut; every closing sequence shown in pragmas.md is cut off whole). Not decided: the rest of the character-level parsing of the pragma text, alias resolution "
     "values, and that positions after a pragma line are shifted by exactly one (runtime arithmetic)."
 )
 ASSUMPTIONS = ["the plugin id table (all_ids) maps every id and alias to its plugin (built in PluginManager registration, C17)"]
